@@ -51,8 +51,44 @@ PROPS = {
     },
 }
 
+E2_ASSUME = [
+    "schedule points exist where netpoll synchronises (atomics, channels, locks, syscalls, Gosched); they are inserted by tools/vinstr into copies of /repo's current sources at check time; plain memory accesses between two points are not interleaved (that is C19's business)",
+    "AF_UNIX socketpairs stand in for TCP; the kernel is real but only ever asked one thing at a time, so a run is a function of (scenario, decision list)",
+    "bounded scenarios (<=3 connections, <=2 pollers, <=6 chunks, <=30000 scheduling steps); sampled schedules (uniform walk, few-preemption, PCT-style priorities), not all interleavings",
+]
+
+def _e2(test, text, rule, quick=2500, thorough=60000, **kw):
+    d = {
+        "engine": "E2 simworld",
+        "test": test,
+        "variant": "instr",
+        "technique": "schedule search: build-time schedule-point injection + cooperative scheduler around the real poller loop, rapid-generated scenario and schedule, shrunk decision-list replay",
+        "level_text": text,
+        "level_note": "trusted: the injector places a yield at every synchronisation step of the current sources; the scheduler serialises all actors so the decision list determines the run; harness callbacks only append to an event log",
+        "design_ref": "DESIGN.md sections 3.2 and 5",
+        "rule": rule,
+        "assumptions": E2_ASSUME,
+        "shrinktime": "40s",
+        "chunk": 2500,
+        "crash_is_violation": False,
+        "quick": {"checks": quick, "shards": 16},
+        "thorough": {"checks": thorough, "shards": 16},
+    }
+    d.update(kw)
+    return d
+
+PROPS.update({
+    "C05": _e2("TestVerifC05", "Generated scenarios x generated schedules over the real connection/poller code; exactly-once, ordering and monotonicity judged on the event log, the close(2) audit and the poller-slot census at exact quiescence.",
+               "scenario = callbacks subset x handler behaviour (returns/reads k/closes/panics) x peer script (writes, close/shutdown) x 0-3 closers x detach x observer; schedule drawn step by step; non-trivial = two of {user close, peer hang-up, handler exit, handler panic, detach} within 8 scheduler steps of each other; distinct = scenario + event sequence"),
+    "C06": _e2("TestVerifC06", "Generated input chunkings, handler behaviours and schedules; serial execution and 'no stranded input' are decided exactly at quiescence (no enabled actor), without any wall clock.",
+               "scenario = 0-5 peer chunks x handler (all / k per call / lazy / close) x optional OnConnect x optional late SetOnRequest x peer close; non-trivial = a handler ran and a poller delivery or the peer close fell within 6 steps of a handler return, or SetOnRequest raced buffered data; distinct = scenario + event sequence"),
+    "C09": _e2("TestVerifC09", "Generated callback subsets, OnConnect durations, data/close timing and schedules; order invariants judged on the event log.",
+               "scenario = subset of OnPrepare/OnConnect/OnRequest/OnDisconnect x OnConnect yields/read/close x peer writes/close x optional closer; non-trivial = the peer's write or close fell within 8 steps of registration or of an OnConnect start/end; distinct = scenario + event sequence"),
+})
+
 ENGINES = [
     {"name": "E1 bufmachine", "path": "harness/netpoll/e1_*_test.go", "serves_properties": ["C01", "C02", "C03", "C16"], "kind_free_text": "rapid state machine over LinkBuffer against a FIFO byte-queue model with a recording pool allocator"},
+    {"name": "E2 simworld", "path": "harness/netpoll/e2_*_test.go + harness/verifsched + tools/vinstr", "serves_properties": ["C04", "C05", "C06", "C07", "C08", "C09", "C10", "C11", "C12", "C13", "C17", "C18"], "kind_free_text": "generated schedules: schedule points injected at build time, cooperative scheduler around the real poller loop on socketpairs"},
 ]
 
 # properties not claimed yet (kept current while the framework is being built)
